@@ -31,18 +31,26 @@ type Event struct {
 
 // InterCase is one interactive send.
 type InterCase struct {
-	Events      []Event `json:"events"`
-	EarlyAfter  int     `json:"early_after"` // -1: none; else after this event the device shows the prompt
-	Complete    bool    `json:"complete"`    // pass the prompt as a completion pattern
-	Plan        []int   `json:"plan"`
-	ReadSize    int     `json:"read_size"`
-	ReadDelayNS int64   `json:"read_delay_ns"`
-	Exact       bool    `json:"exact"`
+	Events     []Event `json:"events"`
+	EarlyAfter int     `json:"early_after"` // -1: none; else after this event the device shows the prompt
+	Complete   bool    `json:"complete"`    // pass the prompt as a completion pattern
+	// CompleteLiteral: the completion pattern is not the prompt but a refusal line the device
+	// prints (at EarlyAfter, if any) before it redraws its prompt.
+	CompleteLiteral bool  `json:"complete_literal,omitempty"`
+	Plan            []int `json:"plan"`
+	ReadSize        int   `json:"read_size"`
+	ReadDelayNS     int64 `json:"read_delay_ns"`
+	Exact           bool  `json:"exact"`
 }
 
 const promptText = "rtr9# "
 
 var promptRe = regexp.MustCompile(`(?im)^rtr9#\s*$`)
+
+const refusal = "%Error: request refused"
+
+// (the whole line: a pattern that a proper prefix of the line satisfies would complete there)
+var refusalRe = regexp.MustCompile(`(?m)^%Error: request refused$`)
 
 var questions = []string{"Proceed? [y/n]: ", "Destination filename [startup-config]? ", "Enter new value: ", "Are you sure (yes/no)", "New password: ", "Retype: "}
 
@@ -55,13 +63,25 @@ func genInter(t *rapid.T) InterCase {
 		Exact:       rapid.Bool().Draw(t, "exact"),
 	}
 
-	pats := []*regexp.Regexp{promptRe}
+	pats := []*regexp.Regexp{promptRe, refusalRe}
 	n := rapid.IntRange(1, 5).Draw(t, "nEvents")
+
+	if n >= 2 && rapid.IntRange(0, 2).Draw(t, "early") == 0 {
+		c.EarlyAfter = rapid.IntRange(0, n-2).Draw(t, "earlyAfter")
+		c.Complete = true
+	} else {
+		c.Complete = rapid.Bool().Draw(t, "complete")
+	}
+
+	c.CompleteLiteral = c.Complete && rapid.Bool().Draw(t, "completeLiteral")
 
 	for i := 0; i < n; i++ {
 		e := Event{Input: sim.GenCommand(t), DelayUS: int64(rapid.SampledFrom([]int{0, 0, 30, 700, 5000}).Draw(t, "delayUS"))}
 
-		if i < n-1 || rapid.Bool().Draw(t, "lastHasResponse") {
+		// an event without expected response waits for the prompt; at a non-final position only
+		// where the prompt is not (also) the completion pattern
+		promptIsCompletion := c.Complete && !c.CompleteLiteral
+		if (i < n-1 && (promptIsCompletion || rapid.IntRange(0, 3).Draw(t, "midNoResponse") != 0)) || (i == n-1 && rapid.Bool().Draw(t, "lastHasResponse")) {
 			e.Response = questions[(i+rapid.IntRange(0, len(questions)-1).Draw(t, "q"))%len(questions)]
 		}
 
@@ -77,29 +97,22 @@ func genInter(t *rapid.T) InterCase {
 		c.Events = append(c.Events, e)
 	}
 
-	if n >= 2 && rapid.IntRange(0, 2).Draw(t, "early") == 0 {
-		c.EarlyAfter = rapid.IntRange(0, n-2).Draw(t, "earlyAfter")
-		c.Complete = true
-	} else {
-		c.Complete = rapid.Bool().Draw(t, "complete")
-	}
-
 	return c
 }
 
 // dialogDev answers each event after a delay; it records the device-stream offsets at which each
 // echo and each response ends.
 type dialogDev struct {
-	c        *InterCase
-	pipe     *sim.Pipe
-	cur      []byte
-	event    int
-	emitted  int   // device bytes emitted so far
-	echoEnd  []int // per event: offset after its echo
-	respEnd  []int // per event: offset after its response
-	lines    []string
-	warmed   bool
-	full     strings.Builder
+	c       *InterCase
+	pipe    *sim.Pipe
+	cur     []byte
+	event   int
+	emitted int   // device bytes emitted so far
+	echoEnd []int // per event: offset after its echo
+	respEnd []int // per event: offset after its response
+	lines   []string
+	warmed  bool
+	full    strings.Builder
 }
 
 func (d *dialogDev) Connect() []byte {
@@ -113,6 +126,10 @@ func (d *dialogDev) emit(b []byte) { d.emitted += len(b); d.full.Write(b) }
 func (d *dialogDev) answer(i int) string {
 	e := d.c.Events[i]
 	out := sim.JoinLines(e.Lines, "\r\n")
+
+	if i == d.c.EarlyAfter && d.c.CompleteLiteral {
+		return out + refusal + "\r\n" + promptText
+	}
 
 	if i == d.c.EarlyAfter || e.Response == "" {
 		return out + promptText
@@ -229,7 +246,11 @@ func runInter(c InterCase) ev.Verdict {
 
 	var oo []util.Option
 	if c.Complete {
-		oo = append(oo, opoptions.WithCompletePatterns([]*regexp.Regexp{promptRe}))
+		if c.CompleteLiteral {
+			oo = append(oo, opoptions.WithCompletePatterns([]*regexp.Regexp{refusalRe}))
+		} else {
+			oo = append(oo, opoptions.WithCompletePatterns([]*regexp.Regexp{promptRe}))
+		}
 	}
 
 	if c.Exact {
@@ -325,9 +346,17 @@ func runInter(c InterCase) ev.Verdict {
 	}
 
 	want := sim.NormOutput(dialogue)
-	// "contains the whole dialogue": a stale byte or two of the previous exchange (the space after
-	// its prompt) may precede it
-	if !strings.Contains(r.Result, want) || len(r.Result) > len(want)+4 {
+
+	if c.EarlyAfter >= 0 && c.CompleteLiteral {
+		// the operation is complete once the refusal line has been shown; the prompt the device
+		// redraws after it may or may not have been read by then
+		upTo := want[:strings.Index(want, refusal)+len(refusal)]
+		if !strings.Contains(r.Result, upTo) || len(r.Result) > len(want)+4 {
+			return ev.Fail("result %q does not contain the dialogue up to the completion line %q", r.Result, upTo)
+		}
+	} else if !strings.Contains(r.Result, want) || len(r.Result) > len(want)+4 {
+		// "contains the whole dialogue": a stale byte or two of the previous exchange (the space
+		// after its prompt) may precede it
 		return ev.Fail("result %q does not contain exactly the whole dialogue %q", r.Result, want)
 	}
 
@@ -347,6 +376,19 @@ func runInter(c InterCase) ev.Verdict {
 	if c.EarlyAfter >= 0 {
 		v.NonTrivial = true
 		v.Classes = append(v.Classes, "early-completion")
+
+		if c.CompleteLiteral {
+			v.Classes = append(v.Classes, "completion-pattern-is-not-the-prompt")
+		}
+	}
+
+	for i, e := range c.Events {
+		if e.Response == "" && i < len(c.Events)-1 {
+			v.NonTrivial = true
+			v.Classes = append(v.Classes, "mid-event-waits-for-prompt")
+
+			break
+		}
 	}
 
 	return v
@@ -365,6 +407,7 @@ type CmdCase struct {
 	ReadSize    int      `json:"read_size"`
 	ReadDelayNS int64    `json:"read_delay_ns"`
 	Out         []string `json:"out"`
+	Exact       bool     `json:"exact,omitempty"`
 }
 
 func genCmd(t *rapid.T) CmdCase {
@@ -375,6 +418,7 @@ func genCmd(t *rapid.T) CmdCase {
 		EchoDelayUS: int64(rapid.SampledFrom([]int{0, 40, 900, 6000}).Draw(t, "echoDelayUS")),
 		ReadSize:    rapid.SampledFrom([]int{1, 4, 8192}).Draw(t, "readSize"),
 		ReadDelayNS: int64(rapid.SampledFrom([]time.Duration{20 * time.Microsecond, 250 * time.Microsecond}).Draw(t, "readDelay")),
+		Exact:       rapid.Bool().Draw(t, "exact"),
 	}
 
 	for i := 0; i < rapid.IntRange(0, 3).Draw(t, "nOut"); i++ {
@@ -466,6 +510,10 @@ func runCmd(c CmdCase) ev.Verdict {
 	var oo []util.Option
 	if c.Eager {
 		oo = append(oo, opoptions.WithEager())
+	}
+
+	if c.Exact {
+		oo = append(oo, opoptions.WithExactMatchInput())
 	}
 
 	r, err := d.SendCommand(c.Cmd, oo...)
